@@ -35,6 +35,8 @@ Optional functions (implement those in scope for the environment, see SCOPE belo
   qualify(P, clause, ev) -> str                precondition of the mechanism behind a problem of this clause (e.g.
                                                "max_degree<=4"); becomes the violation's qualifier, the key under which
                                                a known finding is listed
+  key_score(P, S0) -> float                    workload hint: larger = reset instance more likely to reach boundary values;
+                                               C01 searches 64 keys and plays the adversarial policies on the best ones
   policies(P) -> {name: fn(ctx) -> action}     extra workload policies (complete / collide / frontier ...)
 """
 from __future__ import annotations
